@@ -77,7 +77,7 @@ def make_base(xp, kind, shp, ch, seed):
     raise ValueError(kind)
 
 
-BASE_KINDS_1D = ["fa", "fa_f4", "arange", "arange_f", "linspace", "ones", "full"]
+BASE_KINDS_1D = ["fa", "fa_f4", "arange", "arange_f", "linspace", "full"]
 BASE_KINDS_ND = ["fa", "fa_f4", "full"]
 
 
@@ -99,6 +99,10 @@ def _first_col(b):
     return b[..., :1]
 
 
+def _scale(b, factor=1):
+    return b * factor
+
+
 def _steps():
     S = {}
 
@@ -118,6 +122,7 @@ def _steps():
 
     # ---- elementwise
     both("add1", lambda xp, x: x + 1)
+    both("add2", lambda xp, x: x + 2)
     both("rsub", lambda xp, x: 10 - x)
     both("mul_self", lambda xp, x: x * x)
     both("gt", lambda xp, x: x > 2)
@@ -149,6 +154,13 @@ def _steps():
     split("daidx", lambda da, x: x[da.from_array(np.array([1, 0]), chunks=1)], lambda x: x[np.array([1, 0])], need=1)
     # ---- reductions
     both("sum0", lambda xp, x: x.sum(axis=0), need=1)
+    both("sum_last", lambda xp, x: x.sum(axis=-1), need=1)
+    both("sum0_keep", lambda xp, x: x.sum(axis=0, keepdims=True), need=1)
+    both("sum_last_keep", lambda xp, x: x.sum(axis=-1, keepdims=True), need=1)
+    both("min0_keep", lambda xp, x: x.min(axis=0, keepdims=True), need=1)
+    both("min_last_keep", lambda xp, x: x.min(axis=-1, keepdims=True), need=1)
+    both("max0", lambda xp, x: x.max(axis=0), need=1)
+    both("mean0", lambda xp, x: x.mean(axis=0), need=1)
     both("sum_all", lambda xp, x: x.sum())
     both("sum_keep", lambda xp, x: x.sum(keepdims=True))
     both("sum01", lambda xp, x: x.sum(axis=(0, 1)), need=2)
@@ -175,6 +187,8 @@ def _steps():
     both("stack0", lambda xp, x: xp.stack([x, -x], axis=0))
     # ---- map_blocks / map_overlap / blockwise
     split("mb_double", lambda da, x: x.map_blocks(_double), lambda x: x * 2)
+    split("mb_x2", lambda da, x: x.map_blocks(_scale, factor=2, dtype=x.dtype), lambda x: x * 2)
+    split("mb_x5", lambda da, x: x.map_blocks(_scale, factor=5, dtype=x.dtype), lambda x: x * 5)
     split("mb_f8", lambda da, x: da.map_blocks(_to_f8, x, dtype="f8"), lambda x: x.astype("f8"))
     split(
         "mb_chunks",
@@ -212,18 +226,18 @@ def steps():
 CHUNK_DEPENDENT = {"mb_chunks"}
 
 ALL = [
-    "add1", "rsub", "mul_self", "gt", "truediv", "mod3", "neg", "abs", "sqrt", "np_add", "astype_f4", "clip", "and_", "bcast", "add_rev",
+    "add1", "add2", "rsub", "mul_self", "gt", "truediv", "mod3", "neg", "abs", "sqrt", "np_add", "astype_f4", "clip", "and_", "bcast", "add_rev",
     "add_rechunk", "add_sumkeep",
     "tail", "head2", "mid", "rev", "negstep2", "step_last", "int_last", "int0", "newaxis", "ellip_none", "list0", "daidx",
-    "sum0", "sum_all", "sum_keep", "sum01", "mean_keep", "mean_all", "max_last", "prod0", "any0", "all_all", "max_gt", "min_split", "sum_split",
+    "sum0", "sum_last", "sum0_keep", "sum_last_keep", "min0_keep", "min_last_keep", "max0", "mean0", "sum_all", "sum_keep", "sum01", "mean_keep", "mean_all", "max_last", "prod0", "any0", "all_all", "max_gt", "min_split", "sum_split",
     "nansum_last",
     "rechunk1", "rechunk2", "rechunk_ax0", "rechunk_whole", "rechunk_bal",
     "concat", "concat_last", "stack_last", "stack0",
-    "mb_double", "mb_f8", "mb_chunks", "map_overlap", "map_overlap_none", "blockwise",
+    "mb_double", "mb_x2", "mb_x5", "mb_f8", "mb_chunks", "map_overlap", "map_overlap_none", "blockwise",
     "T", "repeat0", "ones_like",
 ]  # fmt: skip
 CORE = [
-    "truediv", "bcast", "add_rev", "add_rechunk",
+    "truediv", "bcast", "add_rev",
     "tail", "rev", "step_last", "int_last", "newaxis", "daidx",
     "sum0", "mean_keep", "min_split",
     "rechunk2",
@@ -250,7 +264,7 @@ def plans(tier):
 def RULE(tier):
     if tier == "quick":
         prog = (
-            f"every depth-1 program over the {len(ALL)}-step alphabet on every base kind (from_array int64/float32, arange int/float, linspace, ones, full) "
+            f"every depth-1 program over the {len(ALL)}-step alphabet on every base kind (from_array int64/float32, arange int/float, linspace, full) "
             f"and every depth-2 program over the {len(CORE)}-step core alphabet on from_array bases {DEPTH2_BASES}"
         )
     else:
@@ -264,7 +278,10 @@ def RULE(tier):
         "concatenate/stack, map_blocks (same chunks, dtype change, chunks=), map_overlap, blockwise, transpose, repeat, ones_like. Each program is "
         "run by NumPy, the classic engine (in-process) and the expression engine (child interpreter, query planning on). Oracle: value/shape/dtype == "
         "NumPy; lazy shape/dtype == computed; lazy chunks == classic engine's; blocks of the optimized expression have the declared shapes and "
-        "reassemble the value. non-trivial = base has >= 2 blocks."
+        "reassemble the value. non-trivial = base has >= 2 blocks. Plus (both tiers): EVERY unordered pair of "
+        f"{len(PAIR_STEPS)} expressions that differ only in a keyword/parameter value of the same block function (reduction axis/keepdims, map_blocks "
+        f"kwargs, scalar operand), built from ONE input on {PAIR_BASES} (every chunking), kept alive together and computed alone and in one "
+        "dask.compute call: each must equal NumPy, lazy metadata must match, chunks must equal the classic engine's."
     )
 
 
@@ -279,6 +296,22 @@ def programs(tier):
                 continue
             seen.add(key)
             yield prog, bases, kinds
+
+
+# expressions that are built one after the other from the SAME input, kept alive together, and computed alone and jointly:
+# members differ pairwise only in a keyword / parameter value of the same block function (axis, keepdims, map_blocks kwargs, scalar)
+PAIR_STEPS = [
+    "sum0", "sum_last", "sum_all", "sum0_keep", "sum_last_keep", "min0_keep", "min_last_keep", "max0", "max_last", "mean0", "mean_keep",
+    "mb_x2", "mb_x5", "add1", "add2",
+]  # fmt: skip
+PAIR_BASES = [(2, 3), (3, 2), (2, 2, 2)]  # 24 chunkings
+
+
+def pair_cases():
+    for a, b in itertools.combinations(PAIR_STEPS, 2):
+        for shp in PAIR_BASES:
+            for ch in enums.chunkings(shp):
+                yield ("pair", "fa", shp, ch, (a, b))
 
 
 NSHARD = {"quick": 64, "thorough": 256}
@@ -305,6 +338,9 @@ def cases_of(shard, tier):
                         continue
                     done.add(case)
                     yield case
+    for ci, case in enumerate(pair_cases()):
+        if ci % nparts == part:
+            yield case
 
 
 # ---------------------------------------------------------------------------------------------- evaluation (both interpreters)
@@ -357,6 +393,39 @@ def eval_dask(case, seed, expr):
     return out
 
 
+def eval_pair(case, seed, expr):
+    """Build A(x) and B(x) from ONE base x, keep both alive, compute each alone and both in one dask.compute call."""
+    import dask
+
+    da = _da()
+    _, kind, shp, ch, (sa, sb) = case
+    S = steps()
+    out = {"status": "ok"}
+    with warnings.catch_warnings():
+        warnings.simplefilter("ignore")
+        try:
+            x = make_base(da, kind, shp, ch, seed)
+            a = S[sa](da, x)
+            b = S[sb](da, x)
+            for tag, d in (("a", a), ("b", b)):
+                out[tag] = {"shape": tuple(d.shape), "dtype": str(d.dtype), "chunks": tuple(tuple(c) for c in d.chunks)}
+        except Hang:
+            raise
+        except Exception as e:  # noqa: BLE001
+            out.update(status="build-exc", exc=_exc(e))
+            return out
+        try:
+            out["a"]["alone"] = np.asanyarray(a.compute())
+            out["b"]["alone"] = np.asanyarray(b.compute())
+            ja, jb = dask.compute(a, b)
+            out["a"]["joint"], out["b"]["joint"] = np.asanyarray(ja), np.asanyarray(jb)
+        except Hang:
+            raise
+        except Exception as e:  # noqa: BLE001
+            out.update(status="compute-exc", exc=_exc(e))
+    return out
+
+
 def _assemble(vals, chunks, shape):
     nb = tuple(len(c) for c in chunks)
     if not nb:
@@ -394,7 +463,7 @@ def child_main():
         except EOFError:
             return
         try:
-            res = eval_dask(msg["case"], msg["seed"], expr=True)
+            res = (eval_pair if msg["case"][0] == "pair" else eval_dask)(msg["case"], msg["seed"], expr=True)
         except BaseException as e:  # noqa: BLE001
             res = {"status": "child-error", "exc": _exc(e)}
         pickle.dump(res, out)
@@ -498,7 +567,7 @@ def _tol(want):
 
 
 # steps that combine the array with a PYTHON scalar
-SCALAR_STEPS = {"add1", "rsub", "truediv", "mod3", "clip", "concat_last"}
+SCALAR_STEPS = {"add1", "add2", "rsub", "truediv", "mod3", "clip", "concat_last"}
 DEFAULT_DTYPES = ("int64", "float64", "bool", "complex128")
 
 
@@ -600,7 +669,63 @@ def judge(case, seed, counts):
     return got, outcome, found
 
 
+def run_pair(case, ctx):
+    _, kind, shp, ch, (sa, sb) = case
+    S = steps()
+    with warnings.catch_warnings():
+        warnings.simplefilter("ignore")
+        try:
+            x = make_base(np, kind, shp, ch, ctx.seed)
+            want = {"a": np.asanyarray(S[sa](np, x)), "b": np.asanyarray(S[sb](np, x))}
+        except Hang:
+            raise
+        except Exception:  # noqa: BLE001
+            ctx.count("inapplicable")
+            return
+    classic = eval_pair(case, ctx.seed, expr=False)
+    got = ask_child(case, ctx.seed)
+    if got["status"] == "child-error":
+        raise HarnessError(f"C30: child failed outside the evaluated program: {got['exc']}")
+    ctx.case(case, nontrivial=any(len(c) >= 2 for c in ch), outcome=(got["status"], got.get("a", {}).get("shape"), got.get("b", {}).get("shape")))
+    found = []
+    if got["status"] != "ok":
+        name, msg = got["exc"]
+        if name == "NotImplementedError" and got["status"] == "build-exc":
+            ctx.count("rejected")
+            return
+        if classic["status"] != "ok" and classic["exc"][0] == name:
+            ctx.count("shared_with_classic")
+            return
+        found.append((f"pair:expr-raises:{name}", f"pair ({sa}, {sb}) kept alive together: expression engine raised {name}({msg!r}); classic engine: {classic['status']}"))
+    else:
+        for tag, step in (("a", sa), ("b", sb)):
+            g, w = got[tag], want[tag]
+            for how in ("alone", "joint"):
+                why = arr.equal(g[how], w, rtol=_tol(w))
+                if why:
+                    if classic["status"] == "ok" and arr.equal(classic[tag][how], w, rtol=_tol(w)):
+                        ctx.count("shared_with_classic")
+                    else:
+                        found.append((f"{step}:pair-wrong-value:{how}", f"{step}(x) built {'first' if tag == 'a' else 'second'} in the pair ({sa}, {sb}) and computed {how}: {why}"))
+            if tuple(g["shape"]) != g["alone"].shape or g["dtype"] != str(g["alone"].dtype):
+                found.append((f"{step}:pair-lazy-metadata", f"lazy {g['shape']}/{g['dtype']} vs computed {g['alone'].shape}/{g['alone'].dtype} in the pair ({sa}, {sb})"))
+            if classic["status"] == "ok" and tuple(classic[tag]["chunks"]) != tuple(g["chunks"]):
+                found.append((f"{step}:pair-chunks-differ-from-classic", f"{g['chunks']} vs classic {classic[tag]['chunks']} in the pair ({sa}, {sb})"))
+    if not found:
+        return
+    # attribution: a member that already fails as a single (depth-1) program is reported there
+    for step in (sa, sb):
+        pres = judge(("p", kind, shp, ch, (step,)), ctx.seed, [])
+        if pres is not None and pres[2]:
+            ctx.count("inherited_from_prefix")
+            return
+    for key, detail in found:
+        ctx.violation(key, case, detail)
+
+
 def run_case(case, ctx):
+    if case[0] == "pair":
+        return run_pair(case, ctx)
     counts = []
     res = judge(case, ctx.seed, counts)
     for c in counts:
